@@ -194,7 +194,7 @@ CHECKS["C09"] = dict(
     category='exploration',
     technique='differential property-based test: the same case in two environments differing only in enable_async',
     text='Hypothesis draws cases of four families over the shared G-stmt, G-expr, G-inherit and G-modules generators plus a pipeline generator covering every filter with an async variant, custom async filters and tests, and for-loop features; each case runs in paired environments of class Environment / SandboxedEnvironment / ImmutableSandboxedEnvironment / NativeEnvironment, autoescape on or off, the async side optionally given coroutine functions, async generators, awaitable attributes and async methods producing the same results. Entry points render, render_async, generate, generate_async and make_module vs make_module_async; oracle: identical text (native: identical value and type) or an exception of exactly the same class. 32k cases quick, 390k thorough; 25/25 non-equivalent mutants killed; found F45.',
-    note='A defect common to both modes is invisible here (covered by the reference-model properties); excluded, counted known classes: F27 (lazy filter result into a sync-only consumer), F41k (eager async unique/slice when their input raises), F53 (native sync render stringifies outputs while the template is still running); data showing object addresses or non-terminating programs are discarded.',
+    note='A defect common to both modes is invisible here (covered by the reference-model properties); excluded, counted known classes: F27 (lazy filter result into a sync-only consumer), F41 (eager async unique/slice when their input raises), F53 (native sync render stringifies outputs while the template is still running); data showing object addresses or non-terminating programs are discarded.',
     design_ref="DESIGN.md §4 C09",
 )
 
